@@ -21,7 +21,7 @@ TDEFS = 'TDirsDef == {' + ', '.join('<<' + ', '.join('"%s"' % c for c in t) + '>
 
 # names with characters the build-file writers escape (blank, '#', '$'): only
 # in the generated cases (the exhaustive design check keeps the small sets)
-XNAMES = NAMES + ['a b', 'c#d']
+XNAMES = NAMES + ['a b', 'c#d', 'sub2', 'deep2', '2']
 XSTEMS = STEMS + ['my mod', 'x$y', 't#1']
 
 
@@ -325,6 +325,20 @@ def main(argv):
     if len(cases) < n // 3:
         raise MachineryError('generator gave %d cases\n%s' % (len(cases),
                                                               g.tail()))
+    # directed: a reference out of the script's directory into a sibling whose
+    # name continues the directory's own name (sub -> ../sub2), next to a
+    # source inside the directory whose path is the remainder (2/...)
+    for d_, sib in ((1, 'sub2'), (2, 'deep2')):
+        for kind in ('executable', 'static_library', 'copy'):
+            for intd in (True, False):
+                cases.append({'d': d_, 'intdirs': intd, 'kind': kind,
+                              'tdirs': [], 'sources': [
+                                  {'up': 1, 'dirs': [sib], 'stem': 'x',
+                                   'ext': 'c'},
+                                  {'up': 0, 'dirs': ['2'], 'stem': 'x',
+                                   'ext': 'c'},
+                                  {'up': 0, 'dirs': [], 'stem': 'x',
+                                   'ext': 'c'}]})
     nbuild = 60 if ck.quick else 600
     res = pmap(run_case, [(c, i < nbuild and c['kind'] != 'object_files')
                           for i, c in enumerate(cases)])
